@@ -241,6 +241,12 @@ def main():
     @total('flood')
     def flood_case(d, base, L, source, check_contained=False):
         s = build(d)
+        if d['kind'] in ('circle', 'ellipse', 'ring') or len(cases) % 2:
+            # the shape has a past: it was exported and queried with coarse explicit resolutions before being hashed.
+            # Hashing looks at the shape, not at how it was drawn last (the per-cell table below is taken on a fresh twin)
+            guarded(lambda: (s.to_geojson(k=8), s.to_wkt(k=6), s.bounds, s.centroid,
+                             s.intersects_shape(GH.niemeyer_to_geobox(GH._coord_to_niemeyer(start_coord(s), L, base), base), k=5)))
+            ck.count('hashed after coarse-k exports / queries on the same object')
         hasher = GH.NiemeyerHasher(L, base)
         r = guarded(lambda: timed(lambda: sorted(hasher.hash_shape(s))))
         if r[0] != 'Ok':
@@ -249,7 +255,7 @@ def main():
             return None
         got = r[1]
         cells = window_cells(s, base, L)
-        tab = touch_table(s, base, cells)
+        tab = touch_table(build(d), base, cells)
         sc = start_coord(s)
         start = GH._coord_to_niemeyer(sc, L, base)
         touched = sorted(c for c in cells if tab[c])
@@ -294,6 +300,11 @@ def main():
         ({'kind': 'poly', 'pts': [(-30.2, -20.1), (-12.3, -21.7), (-10.9, -3.3), (-31.8, -5.2), (-30.2, -20.1)],
           'holes': [[(-25.1, -15.2), (-17.4, -15.9), (-16.8, -8.8), (-24.9, -9.3), (-25.1, -15.2)]]}, 32, 3),    # hole owning whole cells
         ({'kind': 'circle', 'c': (40.3, 33.7), 'r': 420_000}, 32, 3),
+        # large circles far from the equator (their reported `bounds` are not a true envelope there: anything that
+        # prunes cells by those bounds loses rim cells)
+        ({'kind': 'circle', 'c': (24.94, 60.17), 'r': 55_000}, 16, 6), ({'kind': 'circle', 'c': (24.94, 60.17), 'r': 120_000}, 32, 4),
+        ({'kind': 'circle', 'c': (18.96, 69.65), 'r': 70_000}, 32, 4), ({'kind': 'circle', 'c': (-68.30, -54.80), 'r': 70_000}, 16, 6),
+        ({'kind': 'circle', 'c': (-3.19, 55.95), 'r': 90_000}, 16, 5),
         ({'kind': 'poly', 'pts': [(100.1, 10.2), (118.4, 12.9), (121.3, 28.8), (109.9, 35.1), (98.7, 24.4), (100.1, 10.2)]}, 16, 4),
         ({'kind': 'box', 'nw': (-60.4, -10.3), 'se': (-31.2, -33.9)}, 64, 2),
         ({'kind': 'line', 'pts': [(-75.3, 40.2), (-60.8, 45.9), (-58.1, 33.3)]}, 64, 2),
